@@ -29,7 +29,10 @@ RULE = ("one PRNG (VERIF_SEED) drives everything.  ad: every integer number type
         "incl. the extreme pairs (-128/127, 0/255, INT_MIN/INT_MAX, half the range apart, floats one ulp apart at every "
         "magnitude), a global attribute appended / prepended / removed, each compared in both orders; dump: every "
         "object of every generated file (all flavours); imp: every input kind alone (rank 2 and 3) and every ordered "
-        "pair of different input kinds (plus some triples) in ONE hdfimport command. "
+        "pair of different input kinds (plus some triples) in ONE hdfimport command; many: a file of 45 objects "
+        "(hdiff's object table grows at 21 and 41) with element changes around each growth point, both orders, and "
+        "the hdiff -b object table; large: a Vdata read by hdp in several pieces with a shorter last one, an image and "
+        "an SDS just above the tools' 1 MiB buffers. "
         "A case is non-trivial when it lies in the property's domain (comparable objects, in-range values, "
         "NaN-free floats) and the tool ran; distinct by content")
 TRUSTED = ["Coq 8.16.1 kernel (vm_compute only for closed witnesses and finite tables)",
@@ -57,6 +60,7 @@ INT_RANGE = {20: (-128, 127), 21: (0, 255), 22: (-32768, 32767), 23: (0, 65535),
 INT_TYPES = [20, 21, 22, 23, 24, 25]
 FLOAT_TYPES = [5, 6]
 NUM_TYPES = INT_TYPES + FLOAT_TYPES
+DFK_SIZE = {3: 1, 4: 1, 20: 1, 21: 1, 22: 2, 23: 2, 24: 4, 25: 4, 5: 4, 6: 8}
 SIG_STRIP = "sds-above-1MiB:nfound-of-last-strip-only"
 SIG_SINGLE = "object-in-one-file-only:listed-by-match-but-not-counted"
 
@@ -496,6 +500,26 @@ def parse_match_table(out):
     return " ".join(tbl)
 
 
+def parse_object_table(out):
+    """the 'file 1  Tag Ref Name' table of hdiff -b -> 'tag:name tag:name ...'"""
+    res, on = [], False
+    for l in out.splitlines():
+        if l.startswith("file 1 "):
+            on = True
+            continue
+        if on:
+            if l.startswith("-----"):
+                if res:
+                    break
+                continue
+            tk = l.split()
+            if len(tk) >= 3 and tk[0].lstrip("-").isdigit():
+                res.append("%s:%s" % (tk[0], tk[2]))
+            else:
+                break
+    return " ".join(res)
+
+
 def hd_record(kind, what, d1, d2, extra=""):
     return "HD %s | %s\n%s--\n%s%s" % (kind, what, d1, d2, extra)
 
@@ -525,7 +549,8 @@ def check_pair(env, ctx, kind, what, t1, t2, st, sdspos=None, files=None):
     ms = model_lines(env, "hd", "%s %s\n" % (d1, d2))[0]
     parts = [x.strip() for x in ms.split(";")]
     s_exit, m_exit, m_tbl = parts[0].split()[1], parts[1].split()[1], " ".join(parts[2].split()[1:])
-    verbose = kind.startswith(("added", "removed", "same"))
+    verbose = kind.startswith(("added", "removed", "same", "many"))
+    m_tags = " ".join(parts[4].split()[1:]) if len(parts) > 4 else None
     rc, out, err = run_pair(env, h1, h2, verbose)
     st["runs"] += 1
     st["kinds"][kind] = st["kinds"].get(kind, 0) + 1
@@ -548,6 +573,14 @@ def check_pair(env, ctx, kind, what, t1, t2, st, sdspos=None, files=None):
         ctx.violation("hdiff exit status %d, specification says %s (%s: %s)" % (rc, s_exit, kind, what), body + side,
                       found=True, signature=sig)
         return
+    if verbose and m_tags is not None:
+        r_tags = parse_object_table(out)
+        st["tables_checked"] = st.get("tables_checked", 0) + 1
+        st["max_table_entries"] = max(st.get("max_table_entries", 0), len(r_tags.split()))
+        if r_tags != m_tags:
+            # the object table itself is wrong (tags are what diff() dispatches on)
+            soft(ctx, "object table of hdiff -b (tag:name per entry) differs from dtable_build",
+                 body + "\n# model table: %s\n# hdiff table: %s\n" % (m_tags[:1500], r_tags[:1500]))
     if verbose:
         if r_tbl != m_tbl:
             soft(ctx, "match table of hdiff -b differs from cmatch", body + "\n# model table: %s\n# hdiff table: %s\n" % (m_tbl, r_tbl))
@@ -614,6 +647,148 @@ def check_hd(env, ctx):
             break
     ctx.corr("hdiff~hdiff_m~same_content", **st)
     return dumps
+
+
+# ---- many objects (object-table growth) ------------------------------------------------------------
+
+def list_order(objs):
+    rank = {"E": 0, "R": 1, "S": 2, "V": 3}
+    return sorted(range(len(objs)), key=lambda i: (rank[objs[i]["k"]], i))
+
+
+def check_many(env, ctx):
+    """files with more objects than hdiff's object table holds at first (20 entries, doubled when full): a change
+    in an object listed before / at / after each growth point must be flagged like any other."""
+    r = ctx.rng
+    st = {"files": 0, "runs": 0, "kinds": {}, "positions_checked": 0, "objects_per_file": []}
+    for n in ([45] if ctx.tier == "quick" else [21, 41, 45, 90]):
+        objs = []
+        for k in range(n):
+            c = r.choice("SSRVVE") if k > 3 else "SRVE"[k]
+            nm = "o%02d%s" % (k, c.lower())
+            if c == "S":
+                nt = flavoured(r.choice(NUM_TYPES), r)
+                dims = [r.randrange(1, 4), r.randrange(1, 4)]
+                objs.append({"k": "S", "name": nm, "nt": nt, "dims": dims, "attrs": [],
+                             "vals": [rand_val(nt, r) for _ in range(dims[0] * dims[1])]})
+            elif c == "R":
+                nt = flavoured(r.choice([21, 22, 24, 5]), r, native=False)
+                objs.append({"k": "R", "name": nm, "nt": nt, "nc": 1, "xd": 2, "yd": 2, "vals": [rand_val(nt, r) for _ in range(4)]})
+            elif c == "V":
+                nt = r.choice(NUM_TYPES)
+                objs.append({"k": "V", "name": nm, "nrec": 2, "fields": [("x", nt, 1)], "vals": [rand_val(nt, r) for _ in range(2)]})
+            else:
+                objs.append({"k": "E", "name": nm})
+        f = {"gattrs": [], "objs": objs}
+        t = desc_text(f)
+        base = env.mk(t)
+        st["files"] += 1
+        st["objects_per_file"].append(n)
+        check_pair(env, ctx, "many-same", "F vs F (%d objects)" % n, t, t, st, files=(base, base))
+        order = list_order(objs)
+        want = set([0, 1, 18, 19, 20, 21, 39, 40, 41, n - 2, n - 1] + [r.randrange(n) for _ in range(3)])
+        for pos in sorted(p for p in want if 0 <= p < n):
+            oi = order[pos]
+            o = objs[oi]
+            if o["k"] == "E":
+                continue
+            g = clone(f)
+            tl = [o["nt"]] * len(o["vals"]) if o["k"] != "V" else [o["fields"][0][1]] * len(o["vals"])
+            p = r.randrange(len(o["vals"]))
+            nv = other_vals(tl[p], o["vals"][p], r)[0]
+            g["objs"][oi]["vals"][p] = nv
+            tg = desc_text(g)
+            other = env.mk(tg)
+            what = "%s (table entry %d of %d) [%d] %d -> %d" % (o["name"], pos, n, p, o["vals"][p], nv)
+            check_pair(env, ctx, "many-elem-" + o["k"], what, t, tg, st, files=(base, other))
+            check_pair(env, ctx, "many-elem-" + o["k"] + "/swapped", what, tg, t, st, files=(other, base))
+            if len(ctx.violations) >= 4:
+                break
+    ctx.corr("hdiff-many-objects~dtable_build", **st)
+
+
+# ---- objects above the tools' transfer buffers ---------------------------------------------------------
+
+def check_large(env, ctx):
+    """objects larger than the 1 MiB buffers hdp and hdiff read through (hdp dumpvd BUFFER, hdiff's strip size):
+    Vdata read in several pieces with a shorter last piece, an image and an SDS just above 1 MiB."""
+    r = ctx.rng
+    st = {}
+    # Vdata: record size 496 bytes -> 2114 records per piece
+    fields = [("d", 6, 60), ("i", flavoured(24, r), 4)]
+    vsize = 60 * 8 + 4 * 4
+    chunk = 1048576 // vsize
+    pieces = 1 if ctx.tier == "quick" else r.randrange(1, 4)
+    nrec = pieces * chunk + r.randrange(1, 300)
+    a, b = r.randrange(1, 50), r.randrange(0, 100)
+    ft = " ".join("%s %d %d" % fl for fl in fields)
+    t1 = "W vdbig %d %d %s %d %d\n" % (nrec, len(fields), ft, a, b)
+    t2 = "W vdbig %d %d %s %d %d\n" % (nrec, len(fields), ft, a, b + 1)
+    (d1, h1), (d2, h2) = env.mk(t1), env.mk(t2)
+    rc, api, err = env.run([env.exe, "rd", d1, h1], timeout=300)
+    tk = api.split()
+    per = []
+    for (_, nt, od) in fields:
+        per += [nt] * od
+    vals = list(map(int, tk[5 + 3 * len(fields):])) if tk and tk[0] == "V" else []
+    want = [fmt_api(nt, v) for nt, v in zip(per * nrec, vals)]
+    rc, out, err = env.run([env.hdp, "dumpvd", "-d", "-n", "vdbig", h1], timeout=300)
+    got = out.split()
+    ml = model_lines(env, "vdwalk", "%d %d\n" % (nrec, vsize))[0].split()
+    ctx.case(("large-vd", nrec, a, b), True, sample={"hdp dumpvd": "%d records of %d bytes" % (nrec, vsize), "tokens": len(got)})
+    st.update(vdata_records=nrec, vdata_record_bytes=vsize, vdata_pieces=pieces + 1, vdata_tokens=len(got))
+    rec = "LARGEVD\n%s# records printed by hdp: %s (%d tokens), API returns %d records (%d values), model prints %s records\n" % (
+        t1, len(got) / float(len(per)), len(got), nrec, len(vals), ml[1] if len(ml) > 1 else "?")
+    if crashed(rc) or len(vals) != nrec * len(per):
+        ctx.violation("hdp / harness failed on a Vdata above 1 MiB (rc=%d)" % rc, rec + "# " + err[-300:].replace("\n", "\n# "), found=True)
+    elif got != want:
+        k = next((i for i, (x, y) in enumerate(zip(got, want)) if x != y), min(len(got), len(want)))
+        ctx.violation("hdp dumpvd of a %d-record Vdata (read in %d pieces) differs from the API values at token %d (%d tokens printed, %d expected)" % (
+            nrec, pieces + 1, k, len(got), len(want)), rec, found=True)
+    elif ml[1:3] != [str(nrec), "1"]:
+        soft(ctx, "hdp dumpvd agrees with the API but not with dumpvd_m", rec + "# model: %s\n" % " ".join(ml))
+    st2 = {"runs": 0, "kinds": {}, "positions_checked": 0}
+    rc, out, err = run_pair(env, h1, h2)
+    ctx.case(("large-vd-diff", nrec), True)
+    if rc != 1:
+        ctx.violation("hdiff exit %d for two Vdatas above 1 MiB whose records all differ" % rc, "LARGEVD\n%s--\n%s" % (t1, t2), found=True)
+    rc, out, err = run_pair(env, h1, h1)
+    if rc != 0 or out.strip():
+        ctx.violation("hdiff exit %d for a Vdata above 1 MiB compared with itself" % rc, "LARGEVD\n%s--\n%s" % (t1, t1), found=True)
+    # image just above 1 MiB (3 components): hdp dumpgr and hdiff (element in the last component of the last pixel)
+    xd, yd, nc = 600, 583, 3
+    n = xd * yd * nc
+    q1 = "Q imgbig 21 %d %d %d 7 %d 200\n" % (nc, xd, yd, n // 2)
+    q2 = "Q imgbig 21 %d %d %d 7 %d 9\n" % (nc, xd, yd, n - 1)
+    (e1, g1), (e2, g2) = env.mk(q1), env.mk(q2)
+    rc, out, err = env.run([env.hdp, "dumpgr", "-d", "-n", "imgbig", g1], timeout=300)
+    got = out.split()
+    want = ["7"] * n
+    want[n // 2] = "200"
+    ctx.case(("large-gr", xd, yd, nc), True)
+    st.update(image_values=n)
+    if crashed(rc) or got != want:
+        k = next((i for i, (x, y) in enumerate(zip(got, want)) if x != y), min(len(got), len(want)))
+        ctx.violation("hdp dumpgr of a %dx%dx%d uint8 image differs from its content at token %d (%d printed)" % (xd, yd, nc, k, len(got)),
+                      "LARGEGR\n%s" % q1, found=True)
+    rc, out, err = run_pair(env, g1, g2)
+    if rc != 1:
+        ctx.violation("hdiff exit %d for two images above 1 MiB differing in two elements" % rc, "LARGEGR\n%s--\n%s" % (q1, q2), found=True)
+    # SDS just above 1 MiB: hdp dumpsds (row walk over 1025 rows)
+    rows, cols = 1025, 1024
+    z1 = "Z big 20 2 %d %d 7 %d -9\n" % (rows, cols, rows * cols - 3)
+    (z, hz) = env.mk(z1)
+    rc, out, err = env.run([env.hdp, "dumpsds", "-d", "-n", "big", hz], timeout=300)
+    got = out.split()
+    want = ["7"] * (rows * cols)
+    want[rows * cols - 3] = "-9"
+    ctx.case(("large-sds", rows, cols), True)
+    st.update(sds_values=rows * cols)
+    if crashed(rc) or got != want:
+        k = next((i for i, (x, y) in enumerate(zip(got, want)) if x != y), min(len(got), len(want)))
+        ctx.violation("hdp dumpsds of a %dx%d int8 dataset differs from its content at token %d (%d printed)" % (rows, cols, k, len(got)),
+                      "LARGESDS\n%s" % z1, found=True)
+    ctx.corr("objects-above-1MiB", **st)
 
 
 # ---- dump --------------------------------------------------------------------------------------
@@ -950,6 +1125,54 @@ def replay_text(env, ctx, text, report=True):
         if head[0] == "HD":
             check_pair(env, ctx, head[1] if len(head) > 1 else "corpus", " ".join(head[1:]), t1, t2, st)
         return 0
+    if head[0] in ("LARGEVD", "LARGEGR", "LARGESDS"):
+        descs, cur = [], []
+        for l in body[1:]:
+            if l == "--":
+                descs.append(cur)
+                cur = []
+            else:
+                cur.append(l)
+        descs.append(cur)
+        files = [env.mk("\n".join(d) + "\n") for d in descs]
+        tk = descs[0][0].split()
+        bad = 0
+        if tk[0] == "W":
+            nf = int(tk[3])
+            per = []
+            for j in range(nf):
+                per += [int(tk[5 + 3 * j])] * int(tk[6 + 3 * j])
+            api = env.run([env.exe, "rd", files[0][0], files[0][1]], timeout=300)[1].split()
+            vals = list(map(int, api[5 + 3 * nf:]))
+            want = [fmt_api(nt, v) for nt, v in zip(per * int(tk[2]), vals)]
+            rc, out, err = env.run([env.hdp, "dumpvd", "-d", "-n", tk[1], files[0][1]], timeout=300)
+            vsize = sum(DFK_SIZE[bt(nt)] for nt in per)
+            print("model (records printed, in order 0..n-1?, first bad):", model_lines(env, "vdwalk", "%s %d\n" % (tk[2], vsize))[0])
+        elif tk[0] == "Q":
+            n = int(tk[3]) * int(tk[4]) * int(tk[5])
+            want = [tk[6]] * n
+            if 0 <= int(tk[7]) < n:
+                want[int(tk[7])] = tk[8]
+            rc, out, err = env.run([env.hdp, "dumpgr", "-d", "-n", tk[1], files[0][1]], timeout=300)
+        else:
+            rank = int(tk[3])
+            n = 1
+            for d in tk[4:4 + rank]:
+                n *= int(d)
+            want = [tk[4 + rank]] * n
+            if 0 <= int(tk[5 + rank]) < n:
+                want[int(tk[5 + rank])] = tk[6 + rank]
+            rc, out, err = env.run([env.hdp, "dumpsds", "-d", "-n", tk[1], files[0][1]], timeout=300)
+        got = out.split()
+        ok = got == want and not crashed(rc)
+        bad += 0 if ok else 1
+        print("hdp dump of %s: rc=%d, %d tokens printed, %d values in the object: %s" % (tk[1], rc, len(got), len(want), "agrees" if ok else "DIFFERS"))
+        if len(files) > 1:
+            rc, out, err = run_pair(env, files[0][1], files[1][1])
+            exp = 0 if descs[0] == descs[1] else 1
+            print("hdiff file1 file2: exit %d, specification %d" % (rc, exp))
+            bad += 0 if rc == exp else 1
+        return 1 if bad else 0
     if head[0] == "DUMP":
         t = "\n".join(body[1:]) + "\n"
         d, h = env.mk(t)
@@ -1018,6 +1241,10 @@ def run(ctx):
         if len(ctx.violations) < 4:
             check_imp(env, ctx)
         check_pos(env, ctx)
+        if len(ctx.violations) < 4:
+            check_many(env, ctx)
+        if len(ctx.violations) < 4:
+            check_large(env, ctx)
         check_strip(env, ctx)
         ctx.corr("model-only-disagreements", count=len(SOFT))
         if not any(v["found"] for v in ctx.violations):
